@@ -90,3 +90,157 @@ Example ex_decl :
   event_type false (event_of (str "E") [JElem false (EUint 256) true [12; 0]; JElem false EBytes true [0]])
   = Ok (TTuple [TArr 0 (TArr 12 (TWord (Some 0%nat))); TArr 0 (TDyn (Some 1%nat))]).
 Proof. vm_compute. reflexivity. Qed.
+
+(* ======================= Bridge decoder -> key =======================
+   How many rows Result.Scan hands out, derived from Model/AbiScan.v
+   (Model/BridgeScanRows.v, Proofs/BridgeScanRowsP.v), and the discharge of
+   the premise [single_row_scans] of the bridge unique key <-> rows
+   (Properties/C16.v) for chains whose decodings are the decoder model's. *)
+From Shovel Require Import Model.BridgeScanRows Proofs.BridgeScanRowsP.
+From Shovel Require Model.Rows Model.RowsAbi Model.BridgeRowsTask Model.BridgeKey Proofs.BridgeKeyP
+     Model.Config Model.ConfigGen Model.TaskTypes Model.TaskSpec Model.Filter.
+
+(* (1) the row-count law, for EVERY type, EVERY input, every decoder state and
+   current row: a scan that returns without error has created exactly
+   [row_count D t o] rows -- a function of the type and of the length words the
+   decoder reads from the data, not of the state; Result.Scan then hands out
+   max(1, row_count) rows (Len() = number of rows of Bytes()); exactly one
+   when no selected leaf lies under an array *)
+Theorem scan_row_count : forall D ncols t,
+  (forall s c o s', scan D ncols t s c o = SOk s' -> nrows s' = (nrows s + row_count D t o)%nat)
+  /\ (forall s s', result_scan D ncols t s = SOk s' ->
+        nrows s' = Nat.max 1 (row_count D t 0)
+        /\ length (vrows D s') = Nat.max 1 (row_count D t 0)
+        /\ (no_sel_arr t = true -> length (vrows D s') = 1%nat)).
+Proof. exact scan_row_count_l. Qed.
+Print Assumptions scan_row_count.
+
+(* the formula [row_count] implements, shape by shape: nothing selected under
+   an array: 0; an array with nothing selected below it: 0 (not walked); an
+   array of non-arrays without further selected arrays inside: its element
+   count; an array of arrays: the SUM of its elements' counts (no row of its
+   own); an array of non-arrays in general: per element 1 + the element's own
+   count (a selected array inside a tuple that is an array element adds
+   FURTHER rows: sum, not product); tuple fields add up ([row_count] itself) *)
+Theorem row_count_shapes : forall D,
+  (forall t o, no_sel_arr t = true -> row_count D t o = O)
+  /\ (forall k e o, has_select e = false -> row_count D (TArr k e) o = O)
+  /\ (forall k e o, has_select e = true -> is_arr e = false -> no_sel_arr e = true ->
+        row_count D (TArr k e) o = N.to_nat (arr_len D k o))
+  /\ (forall k e o, has_select e = true -> is_arr e = true ->
+        row_count D (TArr k e) o
+        = nsum (N.to_nat (arr_len D k o)) 0 (fun i => row_count D e (elem_off D e o (arr_hd k) i)))
+  /\ (forall k e o, has_select e = true -> is_arr e = false ->
+        row_count D (TArr k e) o
+        = nsum (N.to_nat (arr_len D k o)) 0 (fun i => S (row_count D e (elem_off D e o (arr_hd k) i)))).
+Proof. exact row_count_shapes_l. Qed.
+Print Assumptions row_count_shapes.
+
+(* on the bytes of the encoding of a well-typed value, anywhere in the data,
+   for EVERY type (outside [dom] too): the count is [val_rows], the same sum
+   over the VALUE's arrays *)
+Theorem row_count_of_encoding : forall D o t v,
+  has_type t v -> AbiScan.L D < 2 ^ 63 ->
+  (exists pre post, D = pre ++ enc t v ++ post /\ N.of_nat (length pre) = o) ->
+  row_count D t o = val_rows t v.
+Proof. exact row_count_of_encoding_l. Qed.
+Print Assumptions row_count_of_encoding.
+
+(* ... so a Result.Scan of an encoding that returns without error hands out
+   max(1, val_rows) rows (success is a premise here; [scan_enc_exact] proves
+   it on [dom]); on [dom] that is the number of rows of [rows_spec] *)
+Theorem scan_enc_row_count : forall ncols t v rest s s',
+  has_type t v -> N.of_nat (length (enc t v ++ rest)) < 2 ^ 63 ->
+  result_scan (enc t v ++ rest) ncols t s = SOk s' ->
+  length (vrows (enc t v ++ rest) s') = Nat.max 1 (val_rows t v).
+Proof. exact scan_enc_row_count_l. Qed.
+Print Assumptions scan_enc_row_count.
+
+Theorem val_rows_on_domain : forall t v, dom t = true -> val_rows t v = length (elem_rows t v).
+Proof. exact val_rows_elem_rows. Qed.
+Print Assumptions val_rows_on_domain.
+
+(* (2) a declaration (Rows.decl: top-level inputs without components) none of
+   whose NON-INDEXED inputs is selected -- the case in which the generated
+   unique key has no abi_idx column: whatever the types of the unselected data
+   inputs (arrays of any nesting included) and whatever the log data, once
+   Event.ABIType succeeds Result.Scan succeeds and hands out exactly one row
+   (without cells); so every successful decoding has exactly one row.
+   (A log with empty data is not scanned at all: Rows.process_log.) *)
+Theorem no_selected_data_input_one_row : forall d data,
+  BridgeKey.has_data d = false ->
+  (forall t, RowsAbi.abi_ty d = Ok t -> RowsAbi.scan_rows d data = Ok [[]])
+  /\ (forall srows, RowsAbi.scan_rows d data = Ok srows -> length srows = 1%nat).
+Proof. exact no_selected_data_input_one_row_full. Qed.
+Print Assumptions no_selected_data_input_one_row.
+
+(* ... hence the premise of the key bridge holds on every chain whose
+   decodings are the decoder model's, for every declaration and every chain *)
+Theorem chain_with_scan_single_row_scans : forall d blocks,
+  Forall (BridgeKey.single_row_scans d) (RowsAbi.chain_with_scan d blocks).
+Proof. exact chain_with_scan_single_row_scans_l. Qed.
+Print Assumptions chain_with_scan_single_row_scans.
+
+(* (3) the main theorem of the bridge unique key <-> rows
+   (C16.configured_index_is_task_key) WITHOUT the decoder premise, the
+   well-formedness premises stated on the chain as the node serves it *)
+Theorem configured_index_is_task_key_decoded :
+  forall g g' dcl ctx dbs blocks (c : TaskTypes.tcfg) (d : TaskTypes.db),
+  BridgeKey.user_plain g = true -> Config.t_unique (Config.ig_table g) = [] ->
+  Config.fix_one ConfigGen.G g = Some g' -> BridgeKey.same_decl g' dcl ->
+  BridgeRowsTask.rows_chain_wf blocks -> Forall BridgeRowsTask.wf_items blocks ->
+  BridgeRowsTask.inserts_ok dcl ctx dbs (RowsAbi.chain_with_scan dcl blocks) ->
+  N.of_nat (List.length blocks) < TaskSpec.nmax ->
+  TaskSpec.TaskInvG c (BridgeRowsTask.inst_chain dcl ctx dbs (RowsAbi.chain_with_scan dcl blocks)) d ->
+  exists u, Config.t_unique (Config.ig_table g') = [u] /\
+  forall r r', In r (TaskTypes.d_rows (TaskSpec.pv c d)) -> In r' (TaskTypes.d_rows (TaskSpec.pv c d)) ->
+  exists gr gr',
+    TaskTypes.r_val r = BridgeRowsTask.enc_row gr /\ TaskTypes.r_val r' = BridgeRowsTask.enc_row gr'
+    /\ Forall BridgeKey.not_null (BridgeKey.uproj dcl u gr) /\ Forall BridgeKey.not_null (BridgeKey.uproj dcl u gr')
+    /\ (BridgeKey.uproj dcl u gr = BridgeKey.uproj dcl u gr'
+        <-> TaskTypes.r_bnum r = TaskTypes.r_bnum r' /\ TaskTypes.r_key r = TaskTypes.r_key r').
+Proof. exact configured_index_is_task_key_decoded_l. Qed.
+Print Assumptions configured_index_is_task_key_decoded.
+
+(* non-vacuity.  Transfer(address indexed from, address indexed to, uint256
+   value) with only from, to selected: no abi_idx in the generated key, the
+   data word decodes to ONE row, two such logs of one transaction give two
+   rows with different log_idx *)
+Example transfer_indexed_only_one_row :
+  BridgeKey.user_plain tri_ig = true
+  /\ Config.t_unique (Config.ig_table tri_fixed)
+     = [[BridgeKey.kn_ig; BridgeKey.kn_src; BridgeKey.kn_block; BridgeKey.kn_tx; BridgeKey.kn_log]]
+  /\ BridgeKey.has_data tri_decl = false
+  /\ RowsAbi.abi_ty tri_decl = Ok (TTuple [TWord None])
+  /\ RowsAbi.scan_rows tri_decl tri_data = Ok [[]]
+  /\ option_map (fun b => match BridgeRowsTask.kinsert tri_decl BridgeKey.erc_ctx [] b with
+                          | Ok l => map fst l | _ => [] end)
+                (nth_error (RowsAbi.chain_with_scan tri_decl tri_blocks) 0)
+     = Some [BridgeRowsTask.Key 2 (Some 5) (Some 0%nat) None; BridgeRowsTask.Key 2 (Some 6) (Some 0%nat) None].
+Proof. vm_compute. repeat split. Qed.
+
+(* the shape one might suspect -- E(address indexed a, uint256[] xs), only [a]
+   selected, xs = [1; 2; 3] in the data (160 bytes): ONE row, not three: the
+   guard `if !t.hasSelect() { return nil }` of the event tuple returns before
+   the array is walked; the same array SELECTED gives three *)
+Example unselected_array_one_row :
+  BridgeKey.has_data sus_decl = false
+  /\ RowsAbi.abi_ty sus_decl = Ok (TTuple [TArr 0 (TWord None)])
+  /\ length sus_data = 160%nat
+  /\ RowsAbi.scan_rows sus_decl sus_data = Ok [[]]
+  /\ row_count sus_data (TTuple [TArr 0 (TWord None)]) 0 = 0%nat
+  /\ row_count sus_data (TTuple [TArr 0 (TWord (Some 0%nat))]) 0 = 3%nat.
+Proof. vm_compute. repeat split. Qed.
+
+(* nesting: N(uint256[][] m, (uint256 a, uint256[] ys)[] ts, uint256[] zs),
+   m = [[1,2],[],[3]], ts = [(4,[5,6]),(7,[])], zs = [8,9]:
+   (2+0+1) + ((1+2)+(1+0)) + 2 = 9 rows -- a type outside [dom] *)
+Example nested_row_count :
+  has_typeb nest_t nest_v = true /\ dom nest_t = false
+  /\ val_rows nest_t nest_v = 9%nat
+  /\ row_count (enc nest_t nest_v) nest_t 0 = 9%nat
+  /\ match result_scan (enc nest_t nest_v) 4 nest_t (new_result 4) with
+     | SOk s => length (vrows (enc nest_t nest_v) s) = 9%nat
+     | _ => False
+     end.
+Proof. vm_compute. repeat split. Qed.
